@@ -180,7 +180,10 @@ func (t *Transport) Ping(addr string) error {
 }
 
 func checkPersistConnErr(err error, pc *persistConn) {
-	if err == ErrShutdown {
+	// A handler may return the text of ErrShutdown as its own error (a proxy passing on
+	// what its downstream call returned), and the client maps that text to ErrShutdown:
+	// only a connection that has really ended is discarded.
+	if err == ErrShutdown && pc.Conn.ended() {
 		pc.mu.Lock()
 		pc.alive = false
 		pc.mu.Unlock()
